@@ -157,14 +157,6 @@ theorem split_invariant (c : CascadeCfg α) (hlo : isnan c.lo = false) (hhi : is
         exact congrArg (post c) h1
     rw [hlast, map_post_fill_post c hlo hhi]
 
-/-- row-by-row processing: one `defuzzify` call per row, threading the state -/
-def commitRows (c : CascadeCfg α) : List (X α) → OutState α → List (X α) × OutState α
-  | [], s => ([], s)
-  | x :: xs, s =>
-    let r := commit c [x] s
-    let rest := commitRows c xs r
-    (r.value ++ rest.1, rest.2)
-
 /-- a batch commits exactly the rows that row-by-row calls commit (used by C02) -/
 theorem batch_eq_rows (c : CascadeCfg α) (hlo : isnan c.lo = false) (hhi : isnan c.hi = false)
     (xs : List (X α)) (s : OutState α) :
